@@ -42,13 +42,15 @@ CLAIMED = {
         ref="DESIGN.md section 5 C19",
     ),
     "C20": dict(
-        text="Every functional graph on N<=3 (quick) / N<=4 (thorough) nodes for 9 cycle shapes (USE, EXTENDS in one file and "
-             "across files, submodule ancestry, pointer links, ASSOCIATE, procedure pointers, type-bound/GENERIC bindings, "
-             "INCLUDE): the successor indices are symbolic ints forked by the solver (CrossHair), the graph is rendered to "
-             "source and run through the real server (didOpen -> parse/link/diagnose, documentSymbol, all 9 positional "
+        text="Every functional graph on N<=3 (quick) / N<=4 (thorough) nodes for 13 cycle shapes (USE, EXTENDS in one file and "
+             "across files, submodule ancestry, pointer links, ASSOCIATE, procedure pointers, mixed pointers, type-bound/GENERIC bindings, "
+             "dummy-procedure interfaces, INCLUDE, INCLUDE with outside includers, INCLUDE inside included procedures): the successor indices are symbolic ints forked by the solver (CrossHair), the graph is rendered to "
+             "source and run through the real server (indexed by didOpen in 4 opening orders and by the real workspace_init in up to 12/24 "
+             "enumeration orders -> parse/link/diagnose, documentSymbol, all 9 positional "
              "requests at both ends of every identifier) under a wall-clock guard; any error response, error message, hang "
              "or out-of-document range is a counterexample. The indexed run itself is concrete per path (NoTracing): the "
-             "solver enumerates the bounded graph space, it does not reason about the parser.",
+             "solver enumerates the bounded graph space, it does not reason about the parser. (S, traced) the real resolve_link / "
+             "resolve_inherit / get_ancestors / get_overridden on object graphs with symbolic successor indices.",
         note="disk replaced by an in-memory table; one source spelling per link kind; default recursion limit; 20 s budget per graph",
         ref="DESIGN.md section 5 C20",
     ),
@@ -78,7 +80,8 @@ CLAIMED = {
              "of <=2/3 lines over 100 statement forms in free, preprocessed and fixed form; all <=3-line documents over 34 "
              "(partly ill-formed) directive forms; every prefix of valid sample programs cut at every column, through the real "
              "server; every single-token insertion / character deletion at every column. Assertion: no exception, no failure "
-             "message, index queryable, get_line calls linear in the line count, wall-clock guard.",
+             "message, index queryable, get_line calls linear in the line count, wall-clock guard. Multiplying texts (macro chains of "
+             "k<=40 definitions with fan-out w<=3, self- and mutual #include, self-INCLUDE) index within the budget.",
         note="texts are indexed concretely once chosen (bounded enumeration through solver forking); tables instead of arbitrary "
              "characters; in-memory disk",
         ref="DESIGN.md section 5 C03",
@@ -107,9 +110,9 @@ CLAIMED = {
         text="(S, symbolic) add_scope/end_scope/close_file/get_inner_scope with free symbolic line numbers (unbounded ints): start/end "
              "lines, nesting, innermost scope for every query line. (RX, unbounded) END regexes as regular languages: every END spelling "
              "recognised, each construct's END regex accepts its own keyword and no other's. (G) generated programs (11x12 construct "
-             "nestings incl. shared-label DO, type/binding, 3 interface forms, internal procedures, 5 second-unit kinds, 4 END variants, "
+             "nestings incl. shared-label DO and a labelled END DO whose label is reused in the next procedure, type/binding, 3 interface forms, internal procedures, 5 second-unit kinds, 4 END variants, "
              "gaps): the outline has every unit and direct procedure/type/named interface exactly once with kind, container, start and "
-             "END lines; workspace/symbol for every substring query in 3 letter cases returns exactly the matching units and module members, sorted.",
+             "END lines; workspace/symbol for every substring query in 3 letter cases returns exactly the matching units and module members, sorted; queries made of regex metacharacters.",
         note="G programs are enumerated concretely below solver-chosen (construct, END variant, gap / query) indices; oracle = the generator's "
              "own stack machine; additional symbols fortls emits are not judged; in-memory disk",
         ref="DESIGN.md section 5 C04", rx=True,
@@ -152,21 +155,23 @@ CLAIMED = {
         text="Completion through the real server over the C05 worlds (accessibility forms x USE plain/ONLY/rename x re-export x default "
              "PRIVATE x local/host declarations x a second USE of the same module): at every use site and for every non-empty prefix of the "
              "identifier the user-declared labels offered are exactly the names a reference resolver (Fortran rules) makes accessible there "
-             "with that prefix; CALL context: callable only. 18 context lines: member chains offer exactly own + inherited components, USE "
-             "offers modules only, USE..ONLY public members only, TYPE(/CLASS( derived types only.",
+             "with that prefix; CALL context: callable only. 21 context lines (CALL also after IF (cond)): member chains offer exactly own + inherited components, USE "
+             "offers modules only, USE..ONLY public members only, TYPE(/CLASS( derived types only. A submodule of a submodule sees its own, "
+             "its parent's and the ancestor module's entities and not a sibling's.",
         note="world parameters are symbolic ints forked by the solver, the worlds below them enumerated concretely; intrinsic/keyword items "
              "ignored; known finding C05-reexport-private-default excluded by its predicate",
         ref="DESIGN.md section 5 C12",
     ),
     "C06": dict(
-        text="A four-file world written with occurrence markers (the generator knows which entity each identifier occurrence outside "
+        text="A nine-file world written with occurrence markers (the generator knows which entity each identifier occurrence outside "
              "comments/literals is bound to: declarations, dummy lists, i=i+1, x$y, shadowing dummies, same spelling in other modules incl. a "
-             "default-PRIVATE one, a type component, literals containing '!' or the other quote): from every occurrence of every entity, with the "
+             "default-PRIVATE one, a type component, literals containing '!' or the other quote, BOZ literals, a module reached twice, interface-block procedures "
+             "called from another file, a fixed-form file with comment lines / trailing comments / a continued statement): from every occurrence of every entity, with the "
              "cursor at start/middle/end, references, documentHighlight and rename answer exactly that entity's occurrences with exact spans, and "
              "applying the rename edits changes exactly those identifiers. Plus the occurrence regex (read from the current source) on all token "
              "lines of <=4/5 tokens: hits == whole-word occurrences.",
         note="(occurrence, cursor, method) indices are symbolic and forked by the solver; each request then runs concretely; known finding "
-             "C06-use-rename-clause (renamed USE association) is shown by its witness and kept out of the main world",
+             "C06-use-rename-clause and C06-specific-in-named-generic are shown by their witnesses and kept out of the main world",
         ref="DESIGN.md section 5 C06",
     ),
     "C07": dict(
@@ -193,10 +198,11 @@ CLAIMED = {
         text="(G, symbolic) the link generation counter: the real serve_onSave and link resolution run traced from link_version = v with "
              "an extending type of another file last resolved at version w; v and w are symbolic ints over the range the real counter can "
              "take (probed from the code); the solver found the wrap-around pre-state (999, 0) on the pinned code and a concrete history of "
-             "~1000 edits confirmed it before it was reported. (H) a 6-file workspace (3-level EXTENDS across files, USE, type-bound link, "
-             "submodule, INCLUDE) under all histories of 2 (quick) / 3 (thorough) events out of 27 (query, unsaved edits to other versions "
-             "incl. a ranged single-line edit, saves, close, delete, re-create) and all final versions: after saving everything, completion "
-             "after three '%' sites, 7 definitions and hovers, references, diagnostics, document and workspace symbols equal a fresh server's.",
+             "~1000 edits confirmed it before it was reported. (H) a 7-file workspace (3-level EXTENDS across files, USE, type-bound link, "
+             "submodule, two INCLUDEs) under all histories of 2 (quick) / 3 (thorough) events out of 31 (query, unsaved edits to other versions "
+             "incl. a ranged single-line edit, saves, close, delete, re-create) and all final versions, ending with one save of exactly the files that changed: completion "
+             "after three '%' sites, 7 definitions and hovers, references, diagnostics, document and workspace symbols equal a fresh server's - the fresh server being the real workspace_init (pool and directory "
+             "walk replaced by stand-ins). (I) workspace_init over all 7! enumeration orders gives one dump.",
         note="in-memory disk; H histories are enumerated concretely below the solver-chosen first event / final version; G re-parses the saved "
              "file untraced; histories longer than 3 events only through G; macro leakage across files excluded by the property",
         ref="DESIGN.md section 5 C10",
